@@ -4,7 +4,7 @@
 Written from casync's serialization rules (caformat.h / the casync encoder and
 decoder), not from desync's code.  Plain python3, no dependencies.
 
-usage: catar.py [--unsorted-ok] [--no-content-hash] FILE
+usage: catar.py [--unsorted-ok] [--long-names-ok] [--no-content-hash] FILE
   exit 0  archive is a well-formed casync catar; a JSON document is printed:
             {"ok": true, "errors": [], "nodes": [ ... canonical listing ... ]}
   exit 1  archive is rejected; same JSON with "ok": false and every rule that
@@ -25,7 +25,9 @@ Rules checked
   R3  ENTRY: known file type, permission bits within 07777, all entries carry
       the same feature flags, uid/gid fit the uid width selected by the flags,
       mtime != 2^64-1, mtime granularity as selected by the flags.
-  R4  FILENAME: 1..255 bytes, no '/', not "." or ".."; names strictly ascending
+  R4  FILENAME: 1..255 bytes (longer ones -- a tar stream can carry them -- only with
+      --long-names-ok; the goodbye hash is always that of the WHOLE name), no '/', not "." or
+      ".."; names strictly ascending
       within a directory (bytewise, as strcmp) -- class order/filenames-unsorted; with
       --unsorted-ok (archives made from a tar stream) the order is not judged.
   R5  GOODBYE of a directory with children c_0..c_{k-1}: k+1 items; the last is
@@ -136,7 +138,8 @@ class Fatal(Exception):
 
 
 class Validator:
-    def __init__(self, buf, unsorted_ok=False, content_hash=True):
+    def __init__(self, buf, unsorted_ok=False, content_hash=True, long_names_ok=False):
+        self.long_names_ok = long_names_ok
         self.b = buf
         self.errors = []
         self.nodes = []
@@ -316,8 +319,10 @@ class Validator:
                 self.fatal('order/filename-or-goodbye-expected', path, epos,
                            'in directory: element type %x where FILENAME or GOODBYE is expected' % typ)
             name = self.cstring(body, 'filename', path, epos)
-            if len(name) == 0 or len(name) > 255 or b'/' in name or name in (b'.', b'..'):
+            if len(name) == 0 or b'/' in name or name in (b'.', b'..'):
                 self.err('filename/invalid', path, epos, 'invalid file name %r' % name)
+            elif len(name) > 255 and not self.long_names_ok:
+                self.err('filename/too-long', path, epos, 'file name of %d bytes (NAME_MAX is 255)' % len(name))
             if last_name is not None and not (last_name < name):
                 cls = 'order/filenames-duplicate' if last_name == name else 'order/filenames-unsorted'
                 if not (self.unsorted_ok and cls == 'order/filenames-unsorted'):
@@ -438,7 +443,8 @@ def main(argv):
         sys.stderr.write('catar.py: %s\n' % e)
         return 2
     sys.setrecursionlimit(10000)
-    v = Validator(buf, unsorted_ok='--unsorted-ok' in argv, content_hash='--no-content-hash' not in argv)
+    v = Validator(buf, unsorted_ok='--unsorted-ok' in argv, content_hash='--no-content-hash' not in argv,
+                  long_names_ok='--long-names-ok' in argv)
     ok = v.run()
     json.dump({'ok': ok, 'errors': v.errors, 'feature_flags': v.feature_flags, 'nodes': v.nodes}, sys.stdout)
     sys.stdout.write('\n')
